@@ -60,7 +60,7 @@ NOT_APPLICABLE = {
     "C07": "jar level needs zip I/O; class level walks a ClassFile tree through a private trait (larger than the Mappings tree whose one-class walk already exceeds 600 s of symbolic execution)",
     "C10": "both filters are closures nested in one method over whole Mappings/MappingsDiff trees; a one-class instance exceeds 600 s of symbolic execution and there is no separable kernel",
     "C12": "as C03 (line-oriented text I/O and a Mappings walk) plus directory walking (walkdir)",
-    "C13": "the only separable kernel, merge_preserve_order::<u8-newtype>, stays undecided: with lists of length 1 and 2 symbolic execution does not finish in 1500 s even after loop relayout and with the allocator model (Peekable + next_if closures + Vec growth); everything else needs two ClassFile trees and zip I/O",
+    "C13": "the only separable kernel, merge_preserve_order::<u8-newtype>, stays undecided: with lists of length 1 and 1 the formula exceeds 12 GB even after loop relayout and with the allocator model (Peekable + next_if closures + Vec growth); everything else needs two ClassFile trees and zip I/O",
     "C15": "the predicate functions are nested inside a method that needs a jar of ClassFiles and a Mappings tree; neither can be walked symbolically within reach",
     "C17": "every clause needs a class-file read or a ClassFile::accept walk; symbolic execution of a concrete 591-byte class read exceeds 900 s",
     "C19": "the mediation kernel Forest::breadth_first_retain::<u8> exceeds 500 s on a 3-node forest; the scope table is nested in an async fn; effective POMs are async recursion; clean-up keeps a multi-entry std HashSet",
